@@ -49,6 +49,7 @@ EXC_PARENTS = {
     "StopIteration": "Exception", "ZeroDivisionError": "ArithmeticError", "ArithmeticError": "Exception",
     "RuntimeError": "Exception", "NotImplementedError": "RuntimeError", "Exception": "BaseException",
     "NetworkXError": "Exception", "OverflowError": "ArithmeticError",
+    "UnboundLocalError": "NameError", "NameError": "Exception", "AssertionError": "Exception",
 }
 
 
@@ -104,6 +105,7 @@ class Res:
 class LoopCtx:
     def __init__(self, ex, A, nets, done, content, x, i, env, distinct):
         self.ex, self.A = ex, A
+        self.outer = ex.loop_stack[-1] if ex.loop_stack else None
         self.snap = {k: Snap(n) for k, n in nets.items()}
         self.done, self.content, self.x, self.i = done, content, x, i
         self.env = env
@@ -150,6 +152,8 @@ class Exec:
         self.feas_ms = feas_ms
         self.verbose = verbose
         self.obligations = []
+        self.skip = set()  # (name, clause) already refuted by a ground counter-model: not re-solved
+        self.only_props = None  # restrict solving to obligations tagged with one of these properties
         self.stats = dict(paths=0, queries=0, feas=0)
 
     # ------------------------------------------------------------------ path machinery
@@ -161,6 +165,7 @@ class Exec:
         self.pending = []
         self.consumed = []
         self.trace = []
+        self.loop_stack = []
         self.warned = z3.BoolVal(False)
 
     def emitting(self):
@@ -245,6 +250,11 @@ class Exec:
 
     def prove(self, name, clause, props, goal, where, kind):
         if not self.emitting():
+            return
+        if self.only_props is not None and kind != "vacuity" and not (set(props) & self.only_props):
+            return
+        if (name, clause) in self.skip:
+            self.obligations.append(Obligation(name, clause, props, "refuted", 0.0, where, kind, None, list(self.taken), "refuted in mode g"))
             return
         self.stats["queries"] += 1
         t = time.time()
@@ -399,7 +409,15 @@ class Exec:
         net.f["_edge_uid"] = VCounter(fr("uid", z3.IntSort()))
         net.frozen_flag = fr("frozen", z3.BoolSort())
         net.shadow = fr("shadow", c.SetId)
+        self.keys_hashable(net)
         return net
+
+    def keys_hashable(self, net):
+        """Language guarantee (trusted): every key of a dict is hashable."""
+        c = self.c
+        for fname in ("_node", "_edge", "_node_attr", "_edge_attr"):
+            d = net.f[fname]
+            self.assume(c.forall(["id"], lambda x, d=d: z3.Implies(z3.Select(d.keys, x), c.hashable(x))))
 
     def empty_net(self, kind):
         c = self.c
@@ -435,6 +453,7 @@ class Exec:
             elif isinstance(o, VCounter):
                 o.next = c.fresh("h_uid", z3.IntSort())
         net.warned = c.fresh("h_warned", z3.BoolSort())
+        self.keys_hashable(net)
 
     def new_param(self, name, ty):
         c = self.c
@@ -587,7 +606,7 @@ class Exec:
             tag = "exit:raise:%s@%s" % (exc, where)
             allowed = [k for k in spec.raises if exc_isa(exc, k)]
             if not allowed and not spec.raises_any:
-                self.prove("%s/%s/exc-class" % (self.fname, tag), "exc-class", tuple(spec.props), z3.BoolVal(False), where, "exc-class")
+                self.prove("%s/%s/exc-class" % (self.fname, tag), "exc-class", ("C05",), z3.BoolVal(False), where, "exc-class")
             for cl in spec.ensures_all:
                 self.prove("%s/%s/%s" % (self.fname, tag, cl.name), cl.name, cl.props, cl.fn(c, A, R), where, "excpost")
             for k in allowed:
@@ -1000,9 +1019,9 @@ class Exec:
 
         def inv(done, x=None):
             K = LoopCtx(self, self.A, self.nets, done, content, x, None, env, distinct)
-            return lspec.inv(c, self.A, K)
+            return self.inv_groups(lspec.inv(c, self.A, K))
 
-        self.prove(lname + "/entry", "loop-entry", tuple(self.spec.props), inv(c.EMPTY), h, "loop-entry")
+        self.prove_groups(lname + "/entry", "loop-entry", inv(c.EMPTY), h)
         which = self.choose(2)
         self.havoc_for_loop(node, env, lspec)
         # iterating a live table: its key set is part of the havocked state; the content we iterate is
@@ -1021,21 +1040,24 @@ class Exec:
                 self.assume(z3.Implies(c.elems_hashable(src.term), c.hashable(x)))
             else:
                 self.assume(c.hashable(x))  # elements of sets / dict keys are hashable
-            self.assume(inv(done, x))
+            self.assume_groups(inv(done, x))
             self.bind_loop_var(node, kind, src, x, env)
+            self.loop_stack.append(LoopCtx(self, self.A, self.nets, done, content, x, None, env, distinct))
             try:
                 self.exec_block(node.body, env)
             except _Continue:
                 pass
             except _Break:
                 return
+            finally:
+                self.loop_stack.pop()
             if live:
                 now = src.keys if kind == "dictkeys" else src.d.keys
-                self.prove(lname + "/iter-stable", "iter-stable", tuple(self.spec.props), now == content, h, "loop-step")
-            self.prove(lname + "/step", "loop-step", tuple(self.spec.props), inv(c.add(done, x)), h, "loop-step")
+                self.prove(lname + "/iter-stable", "iter-stable", tuple(sorted(self.spec.props)), now == content, h, "loop-step")
+            self.prove_groups(lname + "/step", "loop-step", inv(c.add(done, x)), h)
             raise PathEnd()
         else:
-            self.assume(inv(content))
+            self.assume_groups(inv(content))
             return
 
     def list_extend(self, lst, other):
@@ -1058,11 +1080,11 @@ class Exec:
 
         def inv():
             K = LoopCtx(self, self.A, self.nets, None, None, None, None, env, False)
-            return lspec.inv(c, self.A, K)
+            return self.inv_groups(lspec.inv(c, self.A, K))
 
-        self.prove(lname + "/entry", "loop-entry", tuple(self.spec.props), inv(), h, "loop-entry")
+        self.prove_groups(lname + "/entry", "loop-entry", inv(), h)
         self.havoc_for_loop(node, env, lspec)
-        self.assume(inv())
+        self.assume_groups(inv())
         if not self.cond(node.test, env):
             return
         try:
@@ -1071,8 +1093,23 @@ class Exec:
             pass
         except _Break:
             return
-        self.prove(lname + "/step", "loop-step", tuple(self.spec.props), inv(), h, "loop-step")
+        self.prove_groups(lname + "/step", "loop-step", inv(), h)
         raise PathEnd()
+
+    def inv_groups(self, r):
+        """An invariant is a Bool (belongs to every property of the function) or a list of
+        (label, props, Bool) groups; every group is assumed at the head, each is proved separately."""
+        if isinstance(r, list):
+            return r
+        return [("inv", tuple(sorted(self.spec.props)), r)]
+
+    def assume_groups(self, groups):
+        for _, _, f in groups:
+            self.assume(f)
+
+    def prove_groups(self, name, kind, groups, h):
+        for label, props, f in groups:
+            self.prove("%s:%s" % (name, label), "%s:%s" % (kind, label), tuple(props), f, h, kind)
 
     # ------------------------------------------------------------------ expressions
     def ev(self, e, env):
@@ -1112,7 +1149,9 @@ class Exec:
         if n in env:
             v = env[n]
             if isinstance(v, VUndef):
-                raise Unsupported("use of loop-carried local `%s` whose kind is unknown" % n)
+                # a local first bound inside the loop body, read before this iteration bound it:
+                # UnboundLocalError in the first iteration (DESIGN 1.3, loop-carried locals)
+                raise SymRaise("UnboundLocalError", self.where(self.cur))
             return v
         if n in self.EXC:
             return VExcClass(n)
@@ -1718,8 +1757,8 @@ class Exec:
         for k, n in nets.items():
             A.snap0[k] = Snap(n)
         for cl in spec.requires:
-            self.prove("%s/call@%s/pre:%s.%s" % (self.fname, w, spec.qual.split("::")[1], cl.name), "call-pre",
-                       tuple(self.spec.props), cl.fn(c, A), w, "call-pre")
+            self.prove("%s/call@%s/pre:%s.%s" % (self.fname, w, spec.qual.split("::")[1], cl.name), "call-pre:" + cl.name,
+                       cl.props or tuple(sorted(self.spec.props)), cl.fn(c, A), w, "call-pre")
             self.assume(cl.fn(c, A))
         # frame: the callee may write the networks named in spec.modifies (default: every network argument)
         mod = spec.modifies if spec.modifies is not None else list(nets)
